@@ -299,8 +299,8 @@ def mon_c04(script, res):
                 if cur[i] == 40 and m[i] is not None and now < m[i]:
                     m[i] = now
         elif k == 'req':
-            in_signal_rpc = (e[2] == 'signal')
-        elif k == 'ans':
+            in_signal_rpc = e[2] in ('signal', 'signalall', 'signalgroup')
+        elif k in ('ans', 'ansall', 'endacts'):
             in_signal_rpc = False
         elif k == 'fork':
             owner[e[2]] = e[1]
@@ -359,6 +359,7 @@ def mon_c13(script, res):
     pids = [0] * n
     open_reqs = {}      # req -> dict(kind, i, wait, state_at_req, forked, running_seen, kills)
     open_all = {}       # req -> dict(kind, wait, processes seen RUNNING since the request)
+    open_sig = {}       # req -> dict(sig, {eligible process: pid at the request}, kill log)
     waited = set()
     for e in res['trace']:
         k = e[0]
@@ -368,9 +369,25 @@ def mon_c13(script, res):
             _, req, what, a, b = e
             if what in ('start', 'stop', 'signal') and 0 <= a < n:
                 open_reqs[req] = dict(kind=what, i=a, arg=b, st=cur[a], forked=False, running=False, kills=[], other=False)
+            if what in ('signalall', 'signalgroup'):
+                # eligible: every process of the scope that is STARTING, RUNNING or STOPPING at the request
+                scope = [i for i in range(n) if what == 'signalall' or script['procs'][i]['group'] == a]
+                open_sig[req] = dict(sig=(a if what == 'signalall' else b), pids=dict((i, pids[i]) for i in scope if cur[i] in (10, 20, 40)),
+                                     kills=[])
             if what in ('startall', 'stopall', 'startgroup', 'stopgroup'):
                 open_all[req] = dict(kind=what[:-3] if what.endswith('all') else what[:-5], wait=(a if what.endswith('all') else b),
                                      ran=set(), stopped=set())
+        elif k == 'ansall' and e[1] in open_sig:
+            r = open_sig.pop(e[1])
+            idx = sorted(x[0] for x in e[2])
+            if idx != sorted(r['pids']):
+                return ('a signal request for a group/all answered for processes %r; the processes of its scope that were '
+                        'STARTING, RUNNING or STOPPING are %r' % (idx, sorted(r['pids'])))
+            want = sorted((r['pids'][i], r['sig']) for i in r['pids'])
+            got = sorted((abs(x[1]), x[2]) for x in r['kills'])
+            if got != want or any(x[1] < 0 for x in r['kills']):
+                return ('a signal request for a group/all must deliver exactly the named signal once to each eligible child: '
+                        'wanted (pid, signal) %r, the kill log has %r' % (want, r['kills']))
         elif k == 'ansall':
             r = open_all.pop(e[1], None)
             idx = [x[0] for x in e[2]]
@@ -405,6 +422,8 @@ def mon_c13(script, res):
                         r['stopped'].add(e[1])
         elif k == 'kill':
             for r in open_reqs.values():
+                r['kills'].append(e)
+            for r in open_sig.values():
                 r['kills'].append(e)
         elif k == 'ans':
             r = open_reqs.pop(e[1], None)
@@ -871,12 +890,20 @@ def pool_script(rng):
     s['pools'] = [{'events': rng.choice([['EVENT'], ['PROCESS_STATE'], ['TICK_5']]), 'buffer': 10, 'procs': nl,
                    'priority': rng.choice([1, 5, 999])}]
     n = len(s['procs'])
+    nreq = [0]
     for op in s['ops']:
         for a in op['acts']:
             if a[0] == 'rpc' and a[2] in ('start', 'stop', 'signal') and len(a) <= 6 and rng.random() < 0.5:
                 a[3] = n + rng.randrange(nl)
         if rng.random() < 0.06:
             op['acts'] = list(op['acts']) + [['jobstop', rng.randrange(4)]]     # SIGSTOP to a child: it is not dead
+        if rng.random() < 0.12:
+            nreq[0] += 1
+            if rng.random() < 0.5:
+                op['acts'] = list(op['acts']) + [['rpc', 7000 + nreq[0], 'signalall', rng.choice([1, 10, 15])]]
+            else:
+                op['acts'] = list(op['acts']) + [['rpc', 7000 + nreq[0], 'signalgroup', rng.randrange(len(s['groups'])),
+                                                  rng.choice([1, 10, 15])]]
     return s
 
 
